@@ -12,7 +12,7 @@ def expectedC10 : List (String × String) := [
   ("transform.dedup.isunique", "ae424b2c66465559"),
   ("transform.dedup.iterconflicts", "936e44b09579a4d3"),
   ("transform.dedup.iterduplicates", "4e367d11e5b90cbe"),
-  ("transform.dedup.iterunique", "a81d0d01c0817c2e")
+  ("transform.dedup.iterunique", "6972c806451165ee")
 ]
 
 /-- every function or class the model of C10 mirrors still has the body it was validated against -/
